@@ -4,10 +4,12 @@ pub mod c01;
 pub mod c03;
 pub mod c04;
 pub mod c07;
+pub mod c09;
 pub mod c10;
+pub mod c11;
 
 pub fn all() -> Vec<Property> {
-    vec![c01::property(), c03::property(), c04::property(), c07::property(), c10::property()]
+    vec![c01::property(), c03::property(), c04::property(), c07::property(), c09::property(), c10::property(), c11::property()]
 }
 
 pub fn by_id(id: &str) -> Option<Property> {
